@@ -367,6 +367,14 @@ func c14(c *Ctx) {
 			c.Res.Eval(1)
 			if p, err := types.HHmmFromString(h.String()); err != nil || p == nil || !p.Equals(h) {
 				viol("C14:HHmm:text", fmt.Sprintf("HHmmFromString(%q) = %v, %v", h.String(), p, err), nil)
+			} else {
+				// what the parser returned is the application's: it is overwritten (a form field edited in place), and the same text is
+				// parsed again - it is still that time
+				text := h.String()
+				*p = types.NewHHmm((int(caseNo)+7)%24, (int(caseNo)*7)%60)
+				if q, err := types.HHmmFromString(text); err != nil || q == nil || !q.Equals(h) {
+					viol("C14:HHmm:text", fmt.Sprintf("HHmmFromString(%q) = %v, %v after the application had overwritten the value returned by an earlier HHmmFromString(%q)", text, q, err, text), nil)
+				}
 			}
 
 			pin := types.PIN(r.PIN())
@@ -584,7 +592,7 @@ func c14(c *Ctx) {
 				return json.Unmarshal(b, &v)
 			})
 		}
-		for _, s := range []string{"0", "14", "15", "99", "255", "1000", `"fly to the moon"`, `"unlock"`, `"door"`, `""`, `"ENABLE"`, `"14"`} {
+		for _, s := range []string{"0", "14", "15", "99", "255", "1000", `"fly to the moon"`, `"unlock"`, `"door"`, `""`, `"ENABLE"`, `"14"`, "1.5", "13.9", "0.5", "2.0001", "12.999", "1e0", "-1", "true", "null1"} {
 			s := s
 			mustReject("TaskType.UnmarshalJSON", s, func() error { var v types.TaskType; return json.Unmarshal([]byte(s), &v) })
 		}
